@@ -558,7 +558,6 @@ class State(MutableMapping):
             self._last_fork = None
             return
         to_revert = subset.to(torch.bool)
-        to_keep = ~to_revert
         for k, old_v in self._last_fork.items():
             cur_v = self._values[k]
             if old_v is None or cur_v is None:
@@ -569,12 +568,31 @@ class State(MutableMapping):
                 ), f"Bad shapes for {k}: {old_v.shape} != {cur_v.shape}"
                 if right_broadcasting:
                     add_ndim = max(old_v.ndim - to_revert.ndim, 0)
-                    self._values[k] = old_v * unsqueeze_right(
-                        to_revert, ndim=add_ndim
-                    ) + cur_v * unsqueeze_right(to_keep, ndim=add_ndim)
+                    mask_k = unsqueeze_right(to_revert, ndim=add_ndim)
                 else:
-                    self._values[k] = old_v * to_revert + cur_v * to_keep
+                    mask_k = to_revert
+                # select (instead of `old * mask + cur * ~mask`) so that a non-finite
+                # current value in a reverted row can not contaminate it (inf * 0 = nan)
+                self._values[k] = self._select(mask_k, old_v, cur_v)
         self._last_fork = None
+
+    @staticmethod
+    def _select(
+        mask: torch.Tensor, old_v: VariableValue, cur_v: VariableValue
+    ) -> VariableValue:
+        """Return `old_v` where `mask` is True and `cur_v` elsewhere (weights are handled like values)."""
+        if isinstance(old_v, WeightedTensor) or isinstance(cur_v, WeightedTensor):
+            old_value, old_weight = WeightedTensor.get_filled_value_and_weight(old_v)
+            cur_value, cur_weight = WeightedTensor.get_filled_value_and_weight(cur_v)
+            value = torch.where(mask, old_value, cur_value)
+            if old_weight is None and cur_weight is None:
+                return WeightedTensor(value)
+            if old_weight is None:
+                old_weight = torch.ones_like(cur_weight)
+            if cur_weight is None:
+                cur_weight = torch.ones_like(old_weight)
+            return WeightedTensor(value, torch.where(mask, old_weight, cur_weight))
+        return torch.where(mask, old_v, cur_v)
 
     def to_device(self, device: torch.device) -> None:
         """
